@@ -144,7 +144,10 @@ def label_case(rec, pvl, key, tier, tmp, holder):
     tail_iter = [("none", b"")] if non_ascii else list(tails(rng, tier, len(label_bytes)))
     for tname, tail in tail_iter:
         sep = rng.choice((b"\n", b"\r\n", b" ", b";", b";\n", b" /* end of label */\n",
-                          b"\n/* image data follows */", b" # end\n", b"; /* c */ ")) \
+                          b"\n/* image data follows */", b" # end\n", b"; /* c */ ",
+                          b"/* glued */", b";/* c */\n")
+                         + ((b"# image data follows\n", b";# x\n")
+                            if reader in ("default", "ISIS") else ())) \
             if tail or rng.random() < 0.5 else b""
         if reader != "default" and rng.random() < 0.3 and \
                 tname in ("utf8-text", "high-bytes-first") + \
